@@ -159,3 +159,25 @@ def initTA (tree : List PoolT) : TA :=
   { tree, pools := fun j => match tree[j]? with | some p => ⟨p.totIsolated, p.totSharable, 0, 0⟩ | none => ⟨[], [], 0, 0⟩, grants := [] }
 
 end Nri.TA
+
+namespace Nri.TA
+
+/-- the cpuset `applyGrant` pins a grant's container to (`none` = CPU pinning skipped): the pool's
+free sharable set for a shared grant, the exclusive CPUs (plus the sharable set if the grant also
+has a fractional portion) for an exclusive one, the pool's reserved CPUs for a reserved-class
+grant, nothing for `cpu.preserve` -/
+def pinOf (t : TA) (g : Grant) : Option (List Nat) :=
+  match g.cpuType with
+  | .normal =>
+    if g.exclusive.isEmpty then some (t.pools g.pool).sharable
+    else if g.portion > 0 then some (uni g.exclusive (t.pools g.pool).sharable)
+    else some g.exclusive
+  | .reserved => some (match t.tree[g.pool]? with | some pt => pt.reserved | none => [])
+  | .preserve => none
+
+/-- the grants `updateSharedAllocations` re-pins after another container's allocation or release:
+not reserved-class, not preserve, and not purely exclusive ones -/
+def refreshed (g : Grant) : Bool :=
+  g.cpuType == .normal && !(g.portion == 0 && !g.exclusive.isEmpty)
+
+end Nri.TA
